@@ -176,9 +176,11 @@ func NewWriter(w io.Writer, v Version, opt *WriterOptions) (*Writer, error) {
 			if err != nil {
 				return nil, err
 			}
-			ID = [][]byte{opt.ID[0], id}
+			ID = [][]byte{bytes.Clone(opt.ID[0]), id}
 		default:
-			ID = opt.ID[:2]
+			// the encryption key is derived from ID[0]: keep a copy, so that
+			// the caller's slices can be re-used
+			ID = [][]byte{bytes.Clone(opt.ID[0]), bytes.Clone(opt.ID[1])}
 		}
 		trailer["ID"] = Array{String(ID[0]), String(ID[1])}
 	}
@@ -212,7 +214,7 @@ func NewWriter(w io.Writer, v Version, opt *WriterOptions) (*Writer, error) {
 			}
 			V = 1
 		}
-		sec, err := createStdSecHandler(ID[0], opt.UserPassword,
+		sec, err := createStdSecHandler(bytes.Clone(ID[0]), opt.UserPassword,
 			opt.OwnerPassword, opt.UserPermissions, cf.Length, V,
 			unencryptedMetadata)
 		if err != nil {
@@ -323,6 +325,14 @@ func (w *Writer) Close() error {
 	// because the file already references the committed stream.
 	if w.meta.Catalog.Metadata != w.documentMetadata {
 		return errors.New("Catalog.Metadata changed after NewWriter")
+	}
+
+	// the encryption key was derived from ID[0] when the Writer was created;
+	// with a different first ID in the trailer no password would open the file
+	if enc := w.w.enc; enc != nil {
+		if len(w.meta.ID) != 2 || !bytes.Equal(w.meta.ID[0], enc.sec.ID) {
+			return errors.New("MetaInfo.ID[0] changed after NewWriter in an encrypted file")
+		}
 	}
 
 	catRef, err := w.rm.Store(w.meta.Catalog)
